@@ -251,6 +251,38 @@ def reshape_consistent(src, tgt):
     return i == len(src)
 
 
+def length_rules(ctx, R="R1"):
+    """the cached atom count and the atom count of the bond list agree with the arrays (shared with C17: every residue / chain /
+    molecule view is laid over array_length() atoms and bonds.get_atom_count() atoms)"""
+    from ..facts import disjuncts
+    from ..exprnorm import canon, spec
+    s = ctx.src(ATOMS)
+    # in-place resize keeps the cached length
+    de = s.func("_AtomArrayBase._del_element")
+    # ... with the new atom count: the atom axis of the resized coordinates, set after the resize (a decrement before the
+    # np.delete calls is left behind when the deletion is refused)
+    al = [st for st in stmts(de) if isinstance(st, (ast.Assign, ast.AugAssign)) and any(
+        dotted(t) == "self._array_length" for t in (st.targets if isinstance(st, ast.Assign) else [st.target]))]
+    resize = [st for st in stmts(de) if isinstance(st, ast.Assign) and any(dotted(t) == "self._coord" for t in st.targets)]
+    ok_len = bool(al) and bool(resize) and all(
+        isinstance(st, ast.Assign) and st.lineno > resize[0].lineno and (same_expr(st.value, "self._coord.shape[-2]") or same_expr(st.value, "self._array_length - 1"))
+        for st in al)
+    ctx.ob(f"{R}.array-length", ATOMS, "_AtomArrayBase._del_element", "self._array_length = self._coord.shape[-2] (after the resize)", ok_len,
+           "atom deletion must set the cached array length to the new atom count, after the arrays were resized (np.delete refuses an index "
+           "out of range: a length changed before that stays wrong)", de.lineno)
+    # a bond list is accepted only if it describes exactly array_length() atoms
+    sa = s.func("_AtomArrayBase.__setattr__")
+    stores = [c for c in ast.walk(sa) if isinstance(c, ast.Call) and (call_name(c) or "").endswith("__setattr__") and c.args
+              and isinstance(c.args[0], ast.Constant) and c.args[0].value == "_bonds" and len(c.args) == 2 and not (isinstance(c.args[1], ast.Constant))]
+    ctx.need(len(stores) == 1, "store of a bond list in _AtomArrayBase.__setattr__")
+    val = ast.unparse(stores[0].args[1])
+    refusals = [canon(d) for st in ast.walk(sa) if isinstance(st, ast.If) and st.body and isinstance(st.body[-1], ast.Raise) for d in disjuncts(st.test)]
+    ctx.ob(f"{R}.bonds-length-checked", ATOMS, "_AtomArrayBase.__setattr__", f"{val}.get_atom_count() != self._array_length -> ValueError",
+           spec(f"{val}.get_atom_count() != self._array_length") in refusals,
+           "a bond list with another atom count than the array (larger OR smaller) must be refused: masks and molecule tables built from "
+           "it have the bond list's width", sa.lineno)
+
+
 def run(ctx):
     s = ctx.src(ATOMS)
     idx = ClassIndex(ctx, [ATOMS, BONDS, COPYABLE])
@@ -328,16 +360,7 @@ def run(ctx):
                        f"{qual} applies `{i}` to the atom axis of coord but not to the bond list: "
                        "bonds no longer connect the same atoms / atom counts diverge", f.lineno)
     ctx.floor("axis-pairs", n_pair, 8)
-    # in-place resize keeps the cached length
-    de = s.func("_AtomArrayBase._del_element")
-    # ... with the new atom count: the atom axis of the resized coordinates (or old length - 1), set after the resize
-    al = [st for st in stmts(de) if isinstance(st, ast.Assign) and any(dotted(t) == "self._array_length" for t in st.targets)]
-    resize = [st for st in stmts(de) if isinstance(st, ast.Assign) and any(dotted(t) == "self._coord" for t in st.targets)]
-    ok_len = bool(al) and bool(resize) and all(
-        (same_expr(st.value, "self._coord.shape[-2]") and st.lineno > resize[0].lineno) or same_expr(st.value, "self._array_length - 1")
-        for st in al)
-    ctx.ob("R1.array-length", ATOMS, "_AtomArrayBase._del_element", "self._array_length = self._coord.shape[-2] (after the resize)", ok_len,
-           "atom deletion must set the cached array length to the new atom count", de.lineno)
+    length_rules(ctx, "R1")
     # concatenate / stack axes
     for qual, fname, field, want in (
         ("concatenate", "np.concatenate", "coord", -2),
@@ -569,6 +592,9 @@ def run(ctx):
 
 
 MUTANTS = [
+    Mutant("bonds-shorter-accepted", ATOMS, "                if value.get_atom_count() != self._array_length:\n", "                if value.get_atom_count() > self._array_length:\n", "R1.bonds-length-checked"),
+    Mutant("length-decremented-before-delete", ATOMS, "            self._coord = np.delete(self._coord, index, axis=-2)\n            self._array_length = self._coord.shape[-2]\n",
+           "            self._array_length -= 1\n            self._coord = np.delete(self._coord, index, axis=-2)\n", "R1.array-length"),
     Mutant("concat-bonds-flag-overwritten", ATOMS, "        if element.bonds is not None:\n            has_bonds = True\n", "        has_bonds = element.bonds is not None\n", "R1.loop-updates-kept", "concatenate"),
     Mutant("add-annotation-cast-direction", ATOMS, "        elif np.can_cast(self._annot[str(category)].dtype, dtype):\n", "        elif np.can_cast(dtype, self._annot[str(category)].dtype):\n",
            "R1.annotation-dtype-widening"),
